@@ -2,8 +2,8 @@
 # For every fix: commit, revert it alone on top of HEAD in a scratch worktree and run the owning check:
 # the violation must come back (exit 1).
 cd /tmp/hand_wt || exit 3
-declare -A OWN=( [7840229]=C01 [fe70c83]=C01 [d9a5bb3]=C02 [c089a2f]=C15 [882bf2f]=C10 [408e5a1]=C06 [b3177b8]=C04 [072e4ba]=C17 [0c70c7a]=C03 )
-for c in 7840229 fe70c83 d9a5bb3 c089a2f 882bf2f 408e5a1 b3177b8 072e4ba 0c70c7a; do
+declare -A OWN=( [7840229]=C01 [fe70c83]=C01 [d9a5bb3]=C02 [c089a2f]=C15 [882bf2f]=C10 [408e5a1]=C06 [b3177b8]=C04 [072e4ba]=C17 [0c70c7a]=C03 [7183ca5]=C10 )
+for c in 7840229 fe70c83 d9a5bb3 c089a2f 882bf2f 408e5a1 b3177b8 072e4ba 0c70c7a 7183ca5; do
   git reset -q --hard; git checkout -q --detach $(git -C /repo rev-parse HEAD)
   if ! git revert --no-commit $c >/dev/null 2>&1; then echo "$c ${OWN[$c]}: revert conflicts"; git revert --abort 2>/dev/null; git reset -q --hard; continue; fi
   out=$(cd /verif && VERIF_REPO=/tmp/hand_wt ./check ${OWN[$c]} 2>&1); rc=$?
